@@ -25,6 +25,18 @@ struct KPlaced<T> {
     pad: u32,
     tag: T,
 }
+/// independent encoder: the spec image of an address tag
+fn spec_image(fnum: u16, header_addr: u32, load_addr: u32, load_end_addr: u32, bss_end_addr: u32) -> [u8; 24] {
+    let mut exp = [0u8; 24];
+    exp[0..2].copy_from_slice(&2u16.to_le_bytes());
+    exp[2..4].copy_from_slice(&fnum.to_le_bytes());
+    exp[4..8].copy_from_slice(&24u32.to_le_bytes());
+    exp[8..12].copy_from_slice(&header_addr.to_le_bytes());
+    exp[12..16].copy_from_slice(&load_addr.to_le_bytes());
+    exp[16..20].copy_from_slice(&load_end_addr.to_le_bytes());
+    exp[20..24].copy_from_slice(&bss_end_addr.to_le_bytes());
+    exp
+}
 
 #[kani::proof]
 pub fn k_address_decode() {
@@ -71,14 +83,7 @@ pub fn k_address_new() {
     let bytes: &[u8] = &br;
     assert!(bytes.len() == 24);
     assert!(bytes.as_ptr() == core::ptr::addr_of!(tag).cast::<u8>());
-    let mut exp = [0u8; 24];
-    exp[0..2].copy_from_slice(&2u16.to_le_bytes());
-    exp[2..4].copy_from_slice(&fnum.to_le_bytes());
-    exp[4..8].copy_from_slice(&24u32.to_le_bytes());
-    exp[8..12].copy_from_slice(&header_addr.to_le_bytes());
-    exp[12..16].copy_from_slice(&load_addr.to_le_bytes());
-    exp[16..20].copy_from_slice(&load_end_addr.to_le_bytes());
-    exp[20..24].copy_from_slice(&bss_end_addr.to_le_bytes());
+    let exp = spec_image(fnum, header_addr, load_addr, load_end_addr, bss_end_addr);
     assert!(bytes[..24] == exp[..]);
 }
 
@@ -88,13 +93,16 @@ pub fn k_address_placement() {
     assert!(core::mem::align_of::<AddressHeaderTag>() == 8);
     assert!(core::mem::size_of::<AddressHeaderTag>() == 24);
     assert!(AddressHeaderTag::BASE_SIZE == 24);
-    let (flags, _) = any_flag();
-    let t = AddressHeaderTag::new(flags, kani::any(), kani::any(), kani::any(), kani::any());
+    let (flags, fnum) = any_flag();
+    let (a, b, c, d): (u32, u32, u32, u32) = (kani::any(), kani::any(), kani::any(), kani::any());
+    let t = AddressHeaderTag::new(flags, a, b, c, d);
+    let exp = spec_image(fnum, a, b, c, d);
     let arr = [t, t];
     let b1 = arr[1].as_bytes();
     assert!(b1.len() == 24 && b1.as_ptr() == core::ptr::addr_of!(arr[1]).cast::<u8>());
+    assert!(b1[..24] == exp[..]);
     let placed = KPlaced { pad: 0, tag: t };
     let b2 = placed.tag.as_bytes();
     assert!(b2.len() == 24 && b2.as_ptr() == core::ptr::addr_of!(placed.tag).cast::<u8>());
-    assert!(b1[..] == b2[..]);
+    assert!(b2[..24] == exp[..]);
 }
